@@ -2,7 +2,7 @@
 All randomness comes from the Rng passed in (seeded by VERIF_SEED in checks/c12.py).
 
 Shape grammar (shared with harness/c12_nodelist.cpp and lean/Driver/C12.lean):
-    node := 'e' digit '(' node* ')' | 't' | 'c' | 'p'      document := node*   (no top-level text,
+    node := ('e'|'E') digit '(' node* ')' | 't' | 'c' | 'p' ('E': plus an xmlns:p1 declaration)      document := node*   (no top-level text,
     no adjacent text nodes, exactly one top-level element)
 """
 import itertools
@@ -32,7 +32,10 @@ def gen_children(r, budget, depth, top):
             if used + 1 + na > budget:
                 na = 0
             sub, u = gen_children(r, budget - used - 1 - na, depth + 1, False)
-            out.append("e%d(%s)" % (na, sub)); used += 1 + na + u; last_text = False
+            ns = r.chance(1, 5)
+            if ns and used + 2 + na + u > budget + 1:
+                ns = False
+            out.append("%s%d(%s)" % ("E" if ns else "e", na, sub)); used += 1 + na + u + (1 if ns else 0); last_text = False
     return "".join(out), used
 
 
@@ -42,7 +45,7 @@ def gen_shape(r, maxnodes):
     post = "".join(r.choice(["c", "p"]) for _ in range(r.weighted([(0, 6), (1, 2), (2, 1)])))
     na = r.weighted([(0, 3), (1, 3), (2, 2), (3, 1)])
     sub, _ = gen_children(r, max(0, maxnodes - 2 - na - len(pre) - len(post)), 1, False)
-    return "%se%d(%s)%s" % (pre, na, sub, post)
+    return "%s%s%d(%s)%s" % (pre, "E" if r.chance(1, 4) else "e", na, sub, post)
 
 
 def parse_shape(shape, rep):
@@ -58,8 +61,8 @@ def parse_shape(shape, rep):
         nonlocal pos
         while pos < len(shape) and shape[pos] != ")":
             c = shape[pos]
-            if c == "e":
-                na = int(shape[pos + 1])
+            if c in "eE":
+                na = int(shape[pos + 1]) + (1 if c == "E" else 0)
                 assert shape[pos + 2] == "("
                 pos += 3
                 me = len(kinds)
@@ -98,10 +101,10 @@ def all_shapes(maxnodes):
         if allow_text_first:
             firsts.append(("t", 1, False))
         firsts.append(("c", 1, True))
-        for na in range(0, 3):
-            if 1 + na <= budget:
-                for sub, u in seqs(budget - 1 - na, True):
-                    firsts.append(("e%d(%s)" % (na, sub), 1 + na + u, True))
+        for tag, na, cost in (("e", 0, 0), ("e", 1, 1), ("e", 2, 2), ("E", 0, 1), ("E", 1, 2)):
+            if 1 + cost <= budget:
+                for sub, u in seqs(budget - 1 - cost, True):
+                    firsts.append(("%s%d(%s)" % (tag, na, sub), 1 + cost + u, True))
         for f, u, nxt_text in firsts:
             if u > budget:
                 continue
@@ -109,11 +112,11 @@ def all_shapes(maxnodes):
                 res.append((f + rest, u + u2))
         return res
     out = set()
-    for na in range(0, 3):
-        if 1 + na > maxnodes:
+    for tag, na, cost in (("e", 0, 0), ("e", 1, 1), ("e", 2, 2), ("E", 0, 1), ("E", 1, 2)):
+        if 1 + cost > maxnodes:
             continue
-        for sub, u in seqs(maxnodes - 1 - na, True):
-            out.add("e%d(%s)" % (na, sub))
+        for sub, u in seqs(maxnodes - 1 - cost, True):
+            out.add("%s%d(%s)" % (tag, na, sub))
     return sorted(out, key=lambda s: (len(s), s))
 
 
@@ -177,6 +180,7 @@ OPERANDS = [
     "descendant::e", "descendant-or-self::node()", "*", "@*", "node()", "//e[2]/following-sibling::node()",
     "(//e)[position()<3]", "//e[count(*)>1]", "//e[not(*)]", "//processing-instruction()", "../@*", "//e/..",
     "preceding::e[1]", "ancestor::e[1]", "//e[position()mod2=0]",
+    "//namespace::*", "namespace::*", "//e/namespace::*", "//e/@*", "ancestor::e/@*", "//@a1/..", "//namespace::*/..",
 ]
 
 
@@ -186,3 +190,157 @@ def gen_union_shapes(r):
     a, b, c = r.choice(OPERANDS), r.choice(OPERANDS), r.choice(OPERANDS)
     forms = [[a, b], [b, a], [a, a], [a, b, c], [c, b, a], [b, a, a, c]]
     return a, b, c, forms
+
+
+# ---------------------------------------------------------------------------------------------
+# stylesheet-level node-sets (key(), id(), document(), result-tree fragments, EXSLT set functions) through the Xalan CLI
+
+class LabDoc:
+    """a generated document whose nodes carry labels the stylesheet can print:
+    element  <e i="Pn" id="xn" k="v?" [r="idrefs"]>  label Pn ; its attribute k: Pn@k ; a text child: Pn#<number of preceding
+    siblings> ; the root node: P0.  n is the pre-order number (root 0), so label order = document order."""
+
+    def __init__(self, r, prefix, maxnodes, with_ids):
+        self.prefix = prefix
+        self.key = {prefix + "0": (prefix, 0, 0)}     # label -> sort key
+        self.kval = {}                               # element label -> value of @k
+        self.n = 0
+        self.with_ids = with_ids
+        self.elems = []
+        self.children = {}                           # element label -> child element labels
+        self.xml = self._elem(r, maxnodes, 0, None)
+        if with_ids:
+            # IDREFS are filled in afterwards (any ids, some dangling)
+            for lab in self.elems:
+                if r.chance(1, 3):
+                    refs = [("x" + r.choice(self.elems)[1:]) if r.chance(5, 6) else "x999" for _ in range(r.range(1, 4))]
+                    self.xml = self.xml.replace('i="%s" ' % lab, 'i="%s" r="%s" ' % (lab, " ".join(refs)), 1)
+                    self.refs = getattr(self, "refs", {})
+                    self.refs[lab] = refs
+        self.refs = getattr(self, "refs", {})
+
+    def _elem(self, r, budget, depth, parent):
+        self.n += 1
+        me = "%s%d" % (self.prefix, self.n)
+        myn = self.n
+        self.key[me] = (self.prefix, myn, 0)
+        self.key[me + "@k"] = (self.prefix, myn, 1)
+        kv = "v%d" % r.below(3)
+        self.kval[me] = kv
+        self.elems.append(me)
+        self.children[me] = []
+        if parent is not None:
+            self.children[parent].append(me)
+        out = '<e i="%s" ' % me
+        if self.with_ids:
+            out += 'id="x%d" ' % myn
+        out += 'k="%s">' % kv
+        nsib = 0
+        last_text = False
+        nkids = r.range(0, 4) if depth < 4 else 0
+        for _ in range(nkids):
+            if self.n >= budget:
+                break
+            if r.chance(1, 4) and not last_text:
+                self.n += 1
+                self.key["%s#%d" % (me, nsib)] = (self.prefix, self.n, 0)
+                out += "t"
+                last_text = True
+            else:
+                out += self._elem(r, budget, depth + 1, me)
+                last_text = False
+            nsib += 1
+        return out + "</e>"
+
+    def document(self):
+        dtd = "<!DOCTYPE e [<!ATTLIST e id ID #IMPLIED>]>\n" if self.with_ids else ""
+        return '<?xml version="1.0"?>\n' + dtd + self.xml + "\n"
+
+
+BASE_EXPRS = [
+    "//e", "//e[@k='v0']", "//e[@k='v1']", "//e[@k='v2']", "//e[e]", "//e[not(e)]", "//e[position()=1]", "//e[last()]",
+    "//text()", "//e/@k", "//e[@k='v2']/@k", "/*/e", "//e/e[2]", "//e[substring(@i,2) mod 2 = 0]", "//e[substring(@i,2) mod 3 = 1]",
+    "/.", "//e/..", "//e[@k='v1']/ancestor::e", "//e[@k='v0']/following-sibling::e", "//e[@k='v2']/preceding::e",
+    "//e[@k='v1']/ancestor-or-self::node()", "//e[@k='v0']/descendant::e", "//e[@k='v2']/following::node()",
+    "key('k','v0')", "key('k','v1')", "key('k','v2')", "key('k',//e/@k)", "key('kk','v1')", "key('kk','v0')",
+    "key('k',//e[e]/@k)", "id(//e/@r)", "id(//e[@k='v1']/@r)", "id(//e/@r)/e",
+]
+DOC_EXPRS = ["document('b.xml')//e", "document('b.xml')//e[@k='v1']", "document('b.xml')/*", "document('b.xml')//e/@k",
+             "document('b.xml')//e[last()]", "document('b.xml')/."]
+RTF_EXPRS = ["exsl:node-set($rtf)//e", "exsl:node-set($rtf)//e[@k='v1']", "xalan:nodeset($rtg)//e", "exsl:node-set($rtf)/e/e[1]",
+             "exsl:node-set($rtf)", "xalan:nodeset($rtg)//e[@k='v0']", "exsl:node-set($rtf)//e/@k"]
+
+SHEET_HEAD = '''<xsl:stylesheet version="1.0" xmlns:xsl="http://www.w3.org/1999/XSL/Transform" xmlns:exsl="http://exslt.org/common" xmlns:set="http://exslt.org/sets" xmlns:xalan="http://xml.apache.org/xalan" exclude-result-prefixes="exsl set xalan">
+<xsl:output method="text"/>
+<xsl:key name="k" match="e" use="@k"/>
+<xsl:key name="kk" match="e" use="e/@k"/>
+<xsl:variable name="rtf">%s</xsl:variable>
+<xsl:variable name="rtg">%s</xsl:variable>
+<xsl:template match="e" mode="lab"><xsl:value-of select="@i"/></xsl:template>
+<xsl:template match="@*" mode="lab"><xsl:value-of select="../@i"/>@<xsl:value-of select="name()"/></xsl:template>
+<xsl:template match="text()" mode="lab"><xsl:value-of select="../@i"/>#<xsl:value-of select="count(preceding-sibling::node())"/></xsl:template>
+<xsl:template match="/" mode="lab"><xsl:value-of select="substring(*/@i,1,1)"/>0</xsl:template>
+<xsl:template match="/">
+'''
+
+
+def xml_attr(s):
+    return s.replace("&", "&amp;").replace("<", "&lt;").replace('"', "&quot;")
+
+
+def gen_cli_case(r, maxnodes):
+    """-> dict(files={name: text}, queries=[(id, expr, spec)], docs={prefix: LabDoc})
+    spec: None | ('union', [ids]) | ('diff', a, b) | ('inter', a, b) | ('distinct', a) | ('leading', a, b) |
+          ('trailing', a, b) | ('same', a, b) | ('key', value) | ('id', [ids])"""
+    m = LabDoc(r, "m", r.range(4, maxnodes), True)
+    b = LabDoc(r, "b", r.range(2, max(3, maxnodes // 2)), False)
+    f = LabDoc(r, "r", r.range(2, 7), False)
+    g = LabDoc(r, "s", r.range(2, 6), False)
+    queries = []
+    ops = []
+    pool = BASE_EXPRS * 2 + DOC_EXPRS + RTF_EXPRS
+    nid = [0]
+
+    def add(expr, spec=None):
+        nid[0] += 1
+        q = "Q%d" % nid[0]
+        queries.append((q, expr, spec))
+        return q
+    # exact oracles for key() and id()
+    v = "v%d" % r.below(3)
+    add("key('k','%s')" % v, ("key", v))
+    ids = [("x" + r.choice(m.elems)[1:]) if r.chance(7, 8) else "x777" for _ in range(r.range(1, 6))]
+    add("id('%s')" % " ".join(ids), ("id", ids))
+    add("id(//e/@r)", ("idrefs", None))
+    for _ in range(10):
+        e = r.choice(pool)
+        ops.append((add(e), e))
+    main_elem_ops = [(q, e) for q, e in ops if e in BASE_EXPRS and "@k" not in e.split("/")[-1] and "text()" not in e
+                     and "node()" not in e and e not in ("/.", "//e/..")]
+    for _ in range(8):
+        k = r.range(2, 3)
+        chosen = [r.choice(ops) for _ in range(k)]
+        add("|".join(e for _, e in chosen), ("union", [q for q, _ in chosen]))
+    for _ in range(4):
+        if len(main_elem_ops) < 1:
+            break
+        qa, ea = r.choice(main_elem_ops)
+        qb, eb = r.choice(main_elem_ops)
+        add("set:difference(%s, %s)" % (ea, eb), ("diff", qa, qb))
+        add("set:intersection(%s, %s)" % (ea, eb), ("inter", qa, qb))
+        cond = r.choice(["@k='v1'", "@k='v0'", "e", "substring(@i,2) mod 2 = 0"])
+        qs = add("(%s)[%s]" % (ea, cond))
+        add("set:leading(%s, (%s)[%s])" % (ea, ea, cond), ("leading", qa, qs))
+        add("set:trailing(%s, (%s)[%s])" % (ea, ea, cond), ("trailing", qa, qs))
+        add("set:leading(%s, (%s)[%s])|set:trailing(%s, (%s)[%s])" % (ea, ea, cond, ea, ea, cond))
+    qk = add("//e/@k")
+    add("set:distinct(//e/@k)", ("distinct", qk))
+    qk2 = add("//e[e]/@k|//e[@k='v1']/@k")
+    add("set:distinct(//e[e]/@k|//e[@k='v1']/@k)", ("distinct", qk2))
+    body = []
+    for q, expr, _ in queries:
+        body.append('<xsl:text>&#10;%s:</xsl:text><xsl:for-each select="%s"><xsl:text> </xsl:text>'
+                    '<xsl:apply-templates select="." mode="lab"/></xsl:for-each>' % (q, xml_attr(expr)))
+    sheet = SHEET_HEAD % (f.xml, g.xml) + "\n".join(body) + '\n<xsl:text>&#10;</xsl:text>\n</xsl:template>\n</xsl:stylesheet>\n'
+    return {"files": {"m.xml": m.document(), "b.xml": b.document(), "s.xsl": sheet}, "queries": queries,
+            "docs": {"m": m, "b": b, "r": f, "s": g}}
